@@ -332,6 +332,24 @@ func checkFlattenOne(prop, tier string, seed int64) int {
 			}
 		}
 	}
+	l1ok, l1bad := 0, map[string]int{}
+	for _, run := range fc.runs {
+		if v, ok := fc.tlc.Verdicts[run.tid]; ok {
+			if lv, has := v["L1"]; has && lv {
+				l1ok++
+			}
+		}
+	}
+	for _, d := range fc.tlc.Diags {
+		if _, p, clause, _ := diagShape(d); p == "L1" {
+			l1bad[clause]++
+		}
+	}
+	rep.Extra["phase_contracts_ok_runs"] = l1ok
+	if len(l1bad) > 0 {
+		rep.Extra["phase_contracts_broken"] = l1bad
+		rep.Notes = append(rep.Notes, fmt.Sprintf("phase-contract: %v (C01 as an inductive invariant / C02 lemmas / pipeline shape at the hook points; the properties are judged on what Flatten returns)", l1bad))
+	}
 	driftSample := ""
 	for _, d := range fc.tlc.Diags {
 		if _, p, clause, _ := diagShape(d); p == "STEPS" {
